@@ -75,12 +75,14 @@ def pkey(p):
 
 
 class Val:
-    __slots__ = ("p", "ub", "add")
+    __slots__ = ("p", "ub", "add", "mask", "neg")
 
-    def __init__(self, p, ub, add=None):
+    def __init__(self, p, ub, add=None, mask=None, neg=None):
         self.p = p
         self.ub = ub
         self.add = add        # (M, [addend polys], quotient poly) when the value is (u + v) mod M
+        self.mask = mask      # (w, beta): the value is beta (2^w - 1) for a form beta with values in {0, 1} (a select mask)
+        self.neg = neg        # beta: the (signed) value is -beta, beta in {0, 1}; becomes a mask when converted to an unsigned type
 
 
 ZERO = Val({}, 0)
@@ -134,6 +136,7 @@ class Limbs:
         self.inputs = {}                # key -> atom id
         self.split_memo = {}
         self.alias_memo = {}
+        self.quot_prov = {}             # form of a quotient -> (F, ub F, M) it is the quotient of
         self.small = []                 # values known to lie in [0, ub]: candidates for remainders
         self.small_seen = set()
         self.lo_prov = {}
@@ -149,7 +152,7 @@ class Limbs:
 
     # -------------------------------------------------------------- atoms
     def new_atom(self, kind_, ub, **kw):
-        self.atoms.append(dict(kind=kind_, ub=ub, loc=self.loc, **kw))
+        self.atoms.append(dict(kind=kind_, ub=ub, loc=self.loc, target=getattr(self, "cur_target", None), **kw))
         return len(self.atoms) - 1
 
     def unknown(self, ub, why):
@@ -189,6 +192,33 @@ class Limbs:
 
     def is_bits(self, m):
         return bool(m) and all(self.atoms[a]["ub"] <= 1 for a in m)
+
+    def reduce(self, p):
+        """b^2 = b for atoms with values in {0, 1}."""
+        out = {}
+        for m, c in p.items():
+            if len(set(m)) != len(m):
+                seen, mm = set(), []
+                for a in m:
+                    if self.atoms[a]["ub"] <= 1 and a in seen:
+                        continue
+                    seen.add(a)
+                    mm.append(a)
+                m = tuple(mm)
+            v = out.get(m, 0) + c
+            if v:
+                out[m] = v
+            else:
+                out.pop(m, None)
+        return out
+
+    def mkmask(self, beta, w):
+        beta = self.reduce(beta)
+        return Val(pscale(beta, (1 << w) - 1), (1 << w) - 1 if beta else 0, mask=(w, beta))
+
+    @staticmethod
+    def one_minus(beta):
+        return padd(pconst(1), beta, -1)
 
     def poly_ub(self, p):
         """Interval bound of a polynomial: positive terms at the atoms' upper bounds, negative terms dropped."""
@@ -248,7 +278,19 @@ class Limbs:
 
     # -------------------------------------------------------------- quotient / remainder
     def split(self, v, M, why):
-        """(remainder, quotient) of v by M as Vals."""
+        """(remainder, quotient) of v by M as Vals; floor(floor(F / M1) / M) is floor(F / (M1 M)): one form per quantity."""
+        if v.ub >= M and M > 1 and v.p:
+            prov = self.quot_prov.get(pkey(v.p))
+            if prov is not None:
+                F, Fub, M1 = prov
+                _lo, qq = self.split(Val(F, Fub), M1 * M, why)
+                return Val(padd(v.p, pscale(qq.p, M), -1), min(M - 1, v.ub)), qq
+        lo, q = self._split(v, M, why)
+        if M > 1 and q.p and v.p and set(q.p) - {()} and pkey(q.p) != pkey(v.p):
+            self.quot_prov.setdefault(pkey(q.p), (v.p, v.ub, M))
+        return lo, q
+
+    def _split(self, v, M, why):
         if v.ub < M:
             return v, ZERO
         if M == 1:
@@ -300,7 +342,7 @@ class Limbs:
         a = self.split_memo.get(memo)
         ubq = (min(v.ub, rb) if rb is not None else v.ub) // M
         if a is None:
-            a = self.new_atom("q", ubq, F=v.p, M=M, desc=why)
+            a = self.new_atom("q", ubq, F=v.p, M=M, Fub=v.ub, desc=why)
             self.split_memo[memo] = a
         qp = patom(a)
         lo = Val(padd(v.p, pscale(qp, M), -1), min(M - 1, v.ub))
@@ -317,6 +359,8 @@ class Limbs:
 
     def fit(self, v, bits, why):
         """Value after conversion to an unsigned type of `bits` bits."""
+        if v.neg is not None:
+            return self.mkmask(v.neg, bits)
         pending = v.add is not None and v.add[0] is None
         if v.ub < (1 << bits):
             self.wraps_proved += 1
@@ -428,6 +472,9 @@ class Limbs:
         key = self.lv(e, fr)
         bits = self.bits_of(e, fr)
         t = self.ctype(e, fr)
+        if t[2] and v.neg is not None:
+            self.mem[key] = v
+            return
         if t[2] and v.ub >= (1 << bits):
             raise Undecided("value may not fit the signed object %s" % key)
         self.mem[key] = self.fit(v, bits, "store to %s (%d bits)" % (key, bits))
@@ -441,7 +488,9 @@ class Limbs:
             return self.ev(e[1], fr)
         if k == "narrow":
             v = self.ev(e[3], fr)
-            return self.fit(Val(v.p, v.ub), e[2], "conversion to %d bits in %s" % (e[2], show(e0)[:60]))
+            if v.neg is None and v.ub < (1 << e[2]):
+                return v                                   # the value fits: nothing changes (select masks stay masks)
+            return self.fit(Val(v.p, v.ub, neg=v.neg), e[2], "conversion to %d bits in %s" % (e[2], show(e0)[:60]))
         if k == "int":
             c = int(e[1])
             if c < 0:
@@ -463,12 +512,20 @@ class Limbs:
                 return self.ev(e[2], fr)
             raise Undecided("data-dependent selection %s" % show(e)[:60])
         if k == "un":
-            if e[1] == "-" and len(e) > 4 and e[3] and not e[4]:
+            if e[1] == "-" and len(e) > 4 and e[3]:
                 x = self.ev(e[2], fr)
                 if x.ub <= 1:
+                    if e[4]:
+                        return Val({}, 0, neg=x.p)          # -(int)b: a mask once it reaches an unsigned type
                     # -b at w bits for b in {0, 1}: b (2^w - 1)
-                    b = self.bit_atom(x)
-                    return Val({(b,): (1 << e[3]) - 1}, (1 << e[3]) - 1)
+                    return self.mkmask(x.p, e[3])
+            if e[1] == "~" and len(e) > 4 and e[3] and not e[4]:
+                x = self.ev(e[2], fr)
+                w = e[3]
+                if x.mask is not None and x.mask[0] == w:
+                    return self.mkmask(self.one_minus(x.mask[1]), w)
+                if x.ub < (1 << w):
+                    return Val(padd(pconst((1 << w) - 1), x.p, -1), (1 << w) - 1)      # ~x = 2^w - 1 - x
             raise Undecided("unary %s" % e[1])
         if k == "bin":
             return self.binop(e, fr)
@@ -506,6 +563,34 @@ class Limbs:
         R = self.ev(e[3], fr)
         if not bits:
             raise Undecided("untyped operation %s" % show(e)[:60])
+        if not signed:
+            L = self.fit(L, bits, "operand") if L.neg is not None else L
+            R = self.fit(R, bits, "operand") if R.neg is not None else R
+        allones = (1 << bits) - 1
+        for (x, y) in ((L, R), (R, L)):
+            yc = y.p.get((), None) if set(y.p) <= {()} else None
+            if x.neg is not None:
+                continue
+            if op == "*" and yc is not None and yc > 1 and yc & (yc + 1) == 0 and yc <= allones and x.ub <= 1 and not signed:
+                return self.mkmask(x.p, yc.bit_length())              # 0xFF..F * b
+            if op == "+" and yc == allones and x.ub <= 1 and not signed:
+                return self.mkmask(self.one_minus(x.p), bits)         # b + 0xFF..F = (1 - b) 0xFF..F  (mod 2^w)
+            if op == "-" and x is L and yc == 1 and x.ub <= 1:
+                if signed:
+                    return Val({}, 0, neg=self.one_minus(x.p))       # b - 1 = -(1 - b)
+                return self.mkmask(self.one_minus(x.p), bits)
+            if op == "&" and y.mask is not None and x.mask is None:
+                xl = x
+                if x.ub > (1 << y.mask[0]) - 1:
+                    xl, _q = self.split(x, 1 << y.mask[0], "%s at %d bits" % (show(e)[:70], bits))       # a narrower mask also cuts the value
+                return Val(self.reduce(pmul(y.mask[1], xl.p)), xl.ub)   # x & (beta 0xFF..F) = beta x
+            if op == "^" and y.mask is not None and x.ub <= (1 << y.mask[0]) - 1 and x.mask is None:
+                w, beta = y.mask                                      # x ^ (beta 0xFF..F) = x + beta (2^w - 1 - 2 x)
+                return Val(self.reduce(padd(x.p, pmul(beta, padd(pconst((1 << w) - 1), pscale(x.p, 2), -1)))), (1 << w) - 1)
+        if op == "&" and L.mask is not None and R.mask is not None and L.mask[0] == R.mask[0]:
+            return self.mkmask(pmul(L.mask[1], R.mask[1]), L.mask[0])
+        if op == "|" and L.p and R.p and not self.reduce(pmul(L.p, R.p)):
+            return Val(padd(L.p, R.p), max(L.ub, R.ub))              # at most one of the two is non-zero
         M = 1 << (bits - (1 if signed else 0))
         why = "%s at %d bits" % (show(e)[:70], bits)
         if op == "+":
@@ -523,6 +608,8 @@ class Limbs:
             return self.fit(v, bits, why) if not signed else self._signed_fit(v, M, why)
         if op == ">>":
             s = self._const(R)
+            if L.mask is not None and not signed and s < L.mask[0]:
+                return self.mkmask(L.mask[1], L.mask[0] - s)          # (beta 0xFF..F) >> s is the shorter mask
             if signed and L.ub >= M:
                 # arithmetic shift of a two's-complement pattern held in an unsigned object of the same width: as a bit
                 # pattern the result is floor(x / 2^s) + sign (2^w - 2^(w-s)), sign = top bit of x
@@ -601,6 +688,12 @@ class Limbs:
             bits = e[4] if len(e) > 5 else 0
             if bits and (1 << bits) == M and any(pkey(R.p) == pkey(a) for a in addends):
                 return Val(q, 1 if q else 0)
+        for (x, y) in ((L, R), (R, L)):
+            if x.ub <= 1 and x.neg is None and set(y.p) <= {()} and op in ("==", "!="):
+                c = y.p.get((), 0)
+                if c in (0, 1):
+                    same = (op == "==") == (c == 1)
+                    return Val(x.p if same else self.reduce(self.one_minus(x.p)), 1)
         # decided by the bounds?
         if set(L.p) <= {()} and set(R.p) <= {()}:
             a, b = L.p.get((), 0), R.p.get((), 0)
@@ -610,6 +703,11 @@ class Limbs:
 
     def assign(self, e, fr):
         op = e[1]
+        if fr.prefix == "":
+            try:
+                self.cur_target = self.lv(e[2], fr)
+            except Undecided:
+                self.cur_target = None
         if op == "=":
             v = self.ev(e[3], fr)
         else:
@@ -630,13 +728,15 @@ class Limbs:
                     self.store(["var", d[1]], self.ev(d[2], fr), fr)
             return
         if k == "return":
+            if fr.prefix == "":
+                return                     # the root's return value is not part of any specification here
             fr.ret = self.ev(e[1], fr) if e[1] is not None else ZERO
             return
         if k in ("assign", "call"):
             self.ev(e, fr)
             return
-        if k in ("var", "int", "member", "index", "deref", "bin", "narrow", "bool", "un"):
-            return          # expression statement without effect ((void)x, VERIFY_CHECK remnants)
+        if k in ("var", "int", "member", "index", "deref", "bin", "narrow", "bool", "un", "decay", "addr", "sizeof", "cond", "str"):
+            return          # expression statement without effect ((void)x, VERIFY_CHECK / CHECKMEM remnants)
         if k == "stmt":
             return
         raise Undecided("statement %s" % show(e)[:60])
@@ -715,7 +815,7 @@ class Limbs:
     def residual_report(self, R, modulus=None):
         """Split a residual polynomial into (wrong coefficients on input monomials, surviving quotient atoms, unknowns)."""
         wrong, dropped, unk = [], [], []
-        R = self.expand(R)
+        R = self.reduce(self.expand(R))
         for m, c in sorted(R.items()):
             if modulus and c % modulus == 0:
                 continue
